@@ -1034,6 +1034,18 @@ impl HashColumn {
 		Ok((outcome, tables, reindex))
 	}
 
+	/// The number of children is stored in one byte.
+	fn check_fan_out(node: &NewNode) -> Result<()> {
+		if node.children.len() > u8::MAX as usize {
+			return Err(Error::InvalidInput(format!(
+				"Tree node with {} children (max {})",
+				node.children.len(),
+				u8::MAX
+			)))
+		}
+		Ok(())
+	}
+
 	fn prepare_children(
 		&self,
 		children: &Vec<NodeRef>,
@@ -1055,6 +1067,7 @@ impl HashColumn {
 		tables: TablesRef,
 		tier_count: &mut HashMap<usize, usize>,
 	) -> Result<()> {
+		Self::check_fan_out(node)?;
 		let data_size = packed_node_size(&node.data, node.children.len() as u8);
 
 		let table_key = TableKey::NoHash;
@@ -1165,6 +1178,7 @@ impl HashColumn {
 
 				let values = self.as_ref(&tables.value);
 
+				Self::check_fan_out(node)?;
 				let mut tier_count: HashMap<usize, usize> = Default::default();
 				self.prepare_children(&node.children, values, &mut tier_count)?;
 
